@@ -84,7 +84,21 @@ def signer_reuse(res, envelope_bytes: bytes, prop: str):
         if not isinstance(presigned, bytes):
             res.spec_failures.append({"reuse": "signer", "what": "signing an unsigned envelope with a fresh signer failed: " + str(presigned)})
             return
-        seq = [(envelope_bytes, "vendor_a", "sign_ed", "eddsa", "error"), (envelope_bytes, "vendor_b", "sign_ed", "eddsa", "error"),
+        # a second, different envelope: what one call learnt about its envelope (digest, wrapper) is of no use to the next (C04-t)
+        env2 = None
+        try:
+            from . import suitcases as _sc
+            from .props.c04 import strip_blocks as _sb
+            for _i in range(5, 12):
+                d2, f2, _ = _sc.make_case(778, _i, depth=0)
+                c2 = _sc.run_impl_create(_sb(d2), f2)
+                if "ok" in c2 and bytes.fromhex(c2["ok"]) != envelope_bytes:
+                    env2 = bytes.fromhex(c2["ok"])
+                    break
+        except Exception:  # noqa
+            env2 = None
+        seq = [(envelope_bytes, "vendor_a", "sign_ed", "eddsa", "error")] + ([(env2, "vendor_a", "sign_ed", "eddsa", "error"), (env2, "vendor_b", "sign_p256", "es-256", "error")] if env2 else []) + [
+               (envelope_bytes, "vendor_b", "sign_ed", "eddsa", "error"),
                (presigned, "vendor_b", "sign_ed", "eddsa", "skip"), (envelope_bytes, "vendor_b", "sign_p256", "es-256", "error"),
                (envelope_bytes, "vendor_a", "sign_p256", "es-256", "error"), (presigned, "vendor_a", "sign_ed", "eddsa", "error"),
                (envelope_bytes, "vendor_a", "sign_ed", "eddsa", "skip"), (presigned, "vendor_b", "sign_ed", "eddsa", "remove-old"),
@@ -102,7 +116,7 @@ def signer_reuse(res, envelope_bytes: bytes, prop: str):
                         what = f"reused signer answers {got if isinstance(got, str) else 'a signed envelope'}, a fresh signer {fresh if isinstance(fresh, str) else 'a signed envelope'}"
                 elif alg == "eddsa" and got != fresh:
                     what = "reused signer and fresh signer produce different envelopes for a deterministic signature"
-                elif env is envelope_bytes or action == "remove-old":
+                elif env is envelope_bytes or env is env2 or action == "remove-old":
                     v = _verify_last_block(got, parties[party]["keys"][key_name], alg)
                     if v is not True:
                         what = ("the envelope came back without a signature" if v is None else
